@@ -28,6 +28,10 @@ def storageLine (secs : List String) : Option String :=
     match replay decodeLogBody (hexOr hex) with
     | .corrupt => some "corrupt"
     | .ok es good => some s!"ok good={good} ents={joinList (es.map showSEntry)}"
+  | ["WRITESEQ", start, ents] =>
+    -- the write loop of AppendEntries / Compact from a file of `start` bytes: the bytes it adds and the offsets it stores
+    let r := writeSeq (List.replicate (natOr start) 0) ((splitList ents).map parseSEntry)
+    some s!"bytes={showHex (r.1.drop (natOr start))} offs={joinList (r.2.map (fun e => toString e.offset))}"
   | ["ENCLOG", e] => some (showHex (frame (encodeLogBody (parseSEntry e))))
   | ["ENCSTATE", kvs] =>
     let kv := parseKV kvs
